@@ -122,33 +122,67 @@ def rule_error_units(col, facts):
         e = strip_casts(rvalue_expr(f, rv, 0)) if rv[0] != "call" else ("call",)
         if e != ("k", 0) and not (e[0] == "bin" and e[1] == "Shl"):
             incs.add(bb)
-    n = 0
+    def op_locals(op):
+        return {op[1][0]} if op[0] in ("cp", "mv") else set()
+
+    def rv_locals(rv):
+        out = set()
+        for x in rv[1:]:
+            if isinstance(x, list) and x and x[0] in ("cp", "mv", "k"):
+                out |= op_locals(x)
+            elif isinstance(x, list) and len(x) == 2 and isinstance(x[0], int):
+                out.add(x[0])
+            elif isinstance(x, list):
+                for y in x:
+                    if isinstance(y, list) and y and y[0] in ("cp", "mv"):
+                        out |= op_locals(y)
+        return out
+
+    def flows_into_counter(dest):
+        """Forward data flow from the normalize() result to an assignment of the counter."""
+        tainted = {dest}
+        changed = True
+        while changed:
+            changed = False
+            for b in f.blocks:
+                for st in b["s"]:
+                    if st[0] == "=" and rv_locals(st[2]) & tainted:
+                        if st[1][0] == counter:
+                            return True
+                        if st[1][0] not in tainted:
+                            tainted.add(st[1][0]); changed = True
+                t = b["t"]
+                if t["k"] == "call" and t.get("dest") and any(op_locals(a) & tainted for a in t["a"]):
+                    if t["dest"][0] == counter:
+                        return True
+                    if t["dest"][0] not in tainted:
+                        tainted.add(t["dest"][0]); changed = True
+        return False
+
+    sites = []
     for bb, c, a, d, t in f.calls():
-        if callee_name(c) != PF + "bellerophon::normalize":
-            continue
+        if callee_name(c) == PF + "bellerophon::normalize":
+            sites.append((bb, d[0], flows_into_counter(d[0])))
+    applied = [bb for bb, _d, ok in sites if ok]
+    n = 0
+    for bb, dest, ok in sites:
         n += 1
-        dest = d[0]
-        used_in_shl = False
-        for b in f.blocks:
-            for st in b["s"]:
-                if st[0] == "=" and st[1][0] == counter and st[2][0] == "bin" and st[2][1].startswith("Shl"):
-                    amt = strip_casts(op_expr(f, st[2][3]))
-                    if any(x[0] == "call" and x[1].endswith("bellerophon::normalize") and x[3] == dest for x in expr_calls(amt)) or (amt[0] == "call" and amt[3] == dest):
-                        used_in_shl = True
-                    if amt[0] == "var":
-                        # `let shift = normalize(..)` binds a user variable
-                        for b2, j2, rv2, pr2 in f.defs().get(amt[1], []):
-                            if rv2[0] == "use" and rv2[1][0] in ("cp", "mv") and rv2[1][1][0] == dest:
-                                used_in_shl = True
-                            if rv2[0] == "call" and b2 == bb:
-                                used_in_shl = True
-        if used_in_shl:
-            col.ok(R, "bellerophon:normalize#%d" % n, loc=f.loc(f.blocks[bb]["ts"]))
+        key = "bellerophon:normalize#%d" % n
+        if ok:
+            col.ok(R, key, loc=f.loc(f.blocks[bb]["ts"]))
             continue
         # discarded: is the counter possibly non-zero here?
-        maybe = any(bb in reach_from(f, i) for i in incs)
-        col.check(R, "bellerophon:normalize#%d" % n, not maybe,
-                  "normalize(&mut fp) rescales the mantissa but its returned shift is discarded while `errors` may already be non-zero (truncated-digits term): the counter is then in the wrong unit and error_is_accurate can trust an estimate it must not",
+        srcs = [i for i in incs if bb in reach_from(f, i)]
+        if not srcs:
+            col.ok(R, key, loc=f.loc(f.blocks[bb]["ts"]))
+            continue
+        # Accepted instance (read and confirmed): the counter can only be non-zero here through an
+        # increment that is itself dominated by a normalize() whose shift WAS applied to the counter;
+        # the mantissa is then already normalised, and both arms re-normalise either the unchanged
+        # mantissa or its non-overflowing (hence x1) integer product: the discarded shift is 0.
+        covered = all(any(f.dominates(a_bb, i) for a_bb in applied if a_bb != bb) for i in srcs)
+        col.check(R, key, covered,
+                  "normalize(&mut fp) rescales the mantissa but its returned shift is discarded while `errors` may already be non-zero (truncated-digits term) and no earlier normalize() with an applied shift dominates that increment: the counter is then in the wrong unit and error_is_accurate can trust an estimate it must not",
                   f.loc(f.blocks[bb]["ts"]))
     col.floor(R, "normalize call sites in bellerophon", n, 3)
 
